@@ -925,3 +925,126 @@ Proof.
   - destruct (iphc_iid_of_ll ll); cbn [obind]; try discriminate; [|congruence].
     destruct (iphc_context ctx idx) eqn:E; cbn [obind]; try discriminate. exfalso. exact (Hctx idx E).
 Qed.
+
+Lemma iphc_size_nonneg :
+  (forall tf, 0 <= iphc_tc_size_of tf) /\ (forall a b, 0 <= iphc_src_size_of a b) /\
+  (forall a b c, 0 <= iphc_dst_size_of a b c).
+Proof.
+  unfold iphc_tc_size_of, iphc_src_size_of, iphc_dst_size_of. repeat split; intros;
+    repeat match goal with |- context [if ?c then _ else _] => destruct c end; lia.
+Qed.
+
+(* Repr::parse never panics: any octet string, any (well-typed) link-layer addresses, any contexts *)
+Theorem iphc_parse_total b lls lld ctx : iphc_ll_wf lls = true -> iphc_ll_wf lld = true ->
+  iphc_parse b lls lld ctx <> Panic /\ iphc_check_len b <> Panic /\
+  (iphc_check_len b = Ok tt -> iphc_payload b <> Panic /\ iphc_header_len b <> Panic).
+Proof.
+  intros Hls Hld. unfold iphc_parse, iphc_check_len, iphc_payload.
+  destruct (blen b <? 2) eqn:E2; [repeat split; try discriminate; intros HH; discriminate HH|].
+  apply Z.ltb_ge in E2. destruct (iphc_word b E2) as (w & Hw).
+  assert (Hgf : forall mask shift, iphc_get_field b mask shift = Ok (Z.land (Z.shiftr w shift) mask))
+    by (intros; unfold iphc_get_field; rewrite Hw; reflexivity).
+  destruct iphc_size_nonneg as (Ntc & Nsrc & Ndst).
+  (* name the fields *)
+  set (tf := Z.land (Z.shiftr w 11) 3). set (nhf := Z.land (Z.shiftr w 10) 1).
+  set (hlim := Z.land (Z.shiftr w 8) 3). set (cid := Z.land (Z.shiftr w 7) 1).
+  set (sac := Z.land (Z.shiftr w 6) 1). set (sam := Z.land (Z.shiftr w 4) 3).
+  set (mf := Z.land (Z.shiftr w 3) 1). set (dac := Z.land (Z.shiftr w 2) 1). set (dam := Z.land (Z.shiftr w 0) 3).
+  set (S := 2 + (if cid =? 1 then 1 else 0)). set (TC := iphc_tc_size_of tf).
+  set (NH := if nhf =? 1 then 0 else 1). set (HL := if hlim =? 0 then 1 else 0).
+  set (SA := iphc_src_size_of sac sam). set (DA := iphc_dst_size_of mf dac dam).
+  assert (Hhl : iphc_header_len b = Ok (S + TC + NH + HL + SA + DA)).
+  { unfold iphc_header_len, iphc_ip_fields_start, iphc_cid_size, iphc_tc_size, iphc_nh_size, iphc_hl_size,
+      iphc_src_size, iphc_dst_size, iphc_cid_field, iphc_tf_field, iphc_nh_field, iphc_hlim_field, iphc_sac_field,
+      iphc_sam_field, iphc_m_field, iphc_dac_field, iphc_dam_field. rewrite !Hgf. reflexivity. }
+  rewrite Hhl. cbn [obind].
+  assert (NS : 2 <= S <= 3) by (subst S; destruct (cid =? 1); lia).
+  assert (NNH : 0 <= NH <= 1) by (subst NH; destruct (nhf =? 1); lia).
+  assert (NHL : 0 <= HL <= 1) by (subst HL; destruct (hlim =? 0); lia).
+  assert (NTC : 0 <= TC) by apply Ntc. assert (NSA : 0 <= SA) by apply Nsrc. assert (NDA : 0 <= DA) by apply Ndst.
+  destruct (blen b <? S + TC + NH + HL + SA + DA) eqn:El.
+  { repeat split; try discriminate; try (intros HH; discriminate HH). }
+  apply Z.ltb_ge in El. cbn [obind].
+  split; [|split; [discriminate | intros _; split; [apply wb_from_nopanic; lia | discriminate]]].
+  (* the accessors *)
+  assert (Hstart : iphc_src_start b = Ok (S + TC + NH + HL)).
+  { unfold iphc_src_start, iphc_ip_fields_start, iphc_cid_size, iphc_tc_size, iphc_nh_size, iphc_hl_size,
+      iphc_cid_field, iphc_tf_field, iphc_nh_field, iphc_hlim_field. rewrite !Hgf. reflexivity. }
+  assert (Hcs : iphc_src_cid b <> Panic /\ iphc_dst_cid b <> Panic).
+  { unfold iphc_src_cid, iphc_dst_cid, iphc_cid_field. rewrite Hgf. cbn [obind]. fold cid. subst S.
+    destruct (cid =? 1); [|split; discriminate].
+    split; (apply obind_nopanic; [apply wb_get_u8_nopanic; lia | discriminate]). }
+  destruct Hcs as (Hscid & Hdcid).
+  assert (Hsrc : forall u, iphc_src_unres b = Ok u -> iphc_unres_ok u).
+  { unfold iphc_src_unres, iphc_sac_field, iphc_sam_field. rewrite Hstart, !Hgf. cbn [obind]. fold sac sam.
+    intros u. subst SA. unfold iphc_src_size_of in *.
+    destruct (sac =? 0); destruct (sam =? 0); try destruct (sam =? 1); try destruct (sam =? 2);
+      try (intros HH; injection HH as <-; exact I);
+      try (destruct (iphc_src_cid b) as [[id|]| |]; cbn [obind]; try (intros HH; discriminate HH));
+      try (intros HH; injection HH as <-; exact I);
+      (destruct (iphc_inline b _ _) eqn:Ei; cbn [obind]; try (intros HH; discriminate HH);
+       intros HH; injection HH as <-; cbn; exact (proj1 (iphc_inline_len _ _ _ _ Ei))). }
+  assert (Hsrcnp : iphc_src_unres b <> Panic).
+  { unfold iphc_src_unres, iphc_sac_field, iphc_sam_field. rewrite Hstart, !Hgf. cbn [obind]. fold sac sam.
+    subst SA. unfold iphc_src_size_of in *.
+    destruct (sac =? 0); destruct (sam =? 0); try destruct (sam =? 1); try destruct (sam =? 2);
+      try discriminate;
+      try (apply obind_nopanic; [apply iphc_inline_nopanic; lia | discriminate]);
+      (apply obind_nopanic; [exact Hscid|]; intros [id|] _; try discriminate;
+       try (apply obind_nopanic; [apply iphc_inline_nopanic; lia | discriminate])). }
+  assert (Hsz : iphc_src_size b = Ok SA).
+  { unfold iphc_src_size, iphc_sac_field, iphc_sam_field. rewrite !Hgf. reflexivity. }
+  assert (Hdst : forall u, iphc_dst_unres b = Ok u -> iphc_unres_ok u).
+  { unfold iphc_dst_unres, iphc_m_field, iphc_dac_field, iphc_dam_field. rewrite Hstart, Hsz, !Hgf. cbn [obind].
+    fold mf dac dam. intros u. subst DA. unfold iphc_dst_size_of in *.
+    destruct (mf =? 0); destruct (dac =? 0); destruct (dam =? 0); try destruct (dam =? 1); try destruct (dam =? 2);
+      try (intros HH; injection HH as <-; exact I);
+      try (destruct (iphc_dst_cid b) as [[id|]| |]; cbn [obind]; try (intros HH; discriminate HH));
+      try (intros HH; injection HH as <-; exact I);
+      (destruct (iphc_inline b _ _) eqn:Ei; cbn [obind]; try (intros HH; discriminate HH);
+       intros HH; injection HH as <-; cbn; exact (proj1 (iphc_inline_len _ _ _ _ Ei))). }
+  assert (Hdstnp : iphc_dst_unres b <> Panic).
+  { unfold iphc_dst_unres, iphc_m_field, iphc_dac_field, iphc_dam_field. rewrite Hstart, Hsz, !Hgf. cbn [obind].
+    fold mf dac dam. subst DA. unfold iphc_dst_size_of in *.
+    destruct (mf =? 0); destruct (dac =? 0); destruct (dam =? 0); try destruct (dam =? 1); try destruct (dam =? 2);
+      try discriminate;
+      try (apply obind_nopanic; [apply iphc_inline_nopanic; lia | discriminate]);
+      (apply obind_nopanic; [exact Hdcid|]; intros [id|] _; try discriminate;
+       try (apply obind_nopanic; [apply iphc_inline_nopanic; lia | discriminate])). }
+  assert (Hnhnp : iphc_next_header b <> Panic).
+  { unfold iphc_next_header, iphc_ip_fields_start, iphc_cid_size, iphc_tc_size, iphc_nh_field, iphc_cid_field, iphc_tf_field.
+    rewrite !Hgf. cbn [obind]. fold nhf cid tf. fold S TC. subst NH.
+    destruct (nhf =? 1); [discriminate|]. apply obind_nopanic; [apply wb_get_u8_nopanic; lia | discriminate]. }
+  assert (Hhlnp : iphc_hop_limit b <> Panic).
+  { unfold iphc_hop_limit, iphc_ip_fields_start, iphc_cid_size, iphc_tc_size, iphc_nh_size, iphc_hlim_field,
+      iphc_nh_field, iphc_cid_field, iphc_tf_field.
+    rewrite !Hgf. cbn [obind]. fold nhf cid tf hlim. fold S TC NH. subst HL.
+    destruct (hlim =? 0); [apply wb_get_u8_nopanic; lia|]. destruct (hlim =? 1); [discriminate|].
+    destruct (hlim =? 2); discriminate. }
+  assert (Htfnp : iphc_ecn b <> Panic /\ iphc_dscp b <> Panic /\ iphc_flow b <> Panic).
+  { unfold iphc_ecn, iphc_dscp, iphc_flow, iphc_ip_fields_start, iphc_cid_size, iphc_tf_field, iphc_cid_field.
+    rewrite !Hgf. cbn [obind]. fold cid tf. fold S. subst TC. unfold iphc_tc_size_of in *.
+    assert (Rtf : 0 <= tf < 4).
+    { subst tf. change 3 with (Z.ones 2). rewrite Z.land_ones by lia. apply Z.mod_pos_bound. lia. }
+    destruct (tf =? 0) eqn:T0; [|destruct (tf =? 1) eqn:T1; [|destruct (tf =? 2) eqn:T2; [|destruct (tf =? 3) eqn:T3]]];
+      cbn [orb]; try rewrite T2; try rewrite T3;
+      try (exfalso; bsplit; lia);
+      repeat split; try discriminate;
+      try (destruct (tf =? 3); [discriminate|]);
+      try (destruct (tf =? 2));
+      try discriminate;
+      try (apply obind_nopanic; [apply wb_get_u8_nopanic; lia | discriminate]);
+      try (apply obind_nopanic; [apply wb_get_be_nopanic; lia | discriminate]). }
+  destruct Htfnp as (He & Hds & Hfl).
+  apply obind_nopanic; [unfold iphc_dispatch_field; rewrite Hgf; discriminate|]. intros d _.
+  destruct (negb (d =? wsix_DISPATCH_IPHC_HEADER)); [discriminate|].
+  apply obind_nopanic; [assumption|]. intros us Eus.
+  apply obind_nopanic; [apply iphc_resolve_nopanic; auto|]. intros src _.
+  apply obind_nopanic; [assumption|]. intros ud Eud.
+  apply obind_nopanic; [apply iphc_resolve_nopanic; auto|]. intros dst _.
+  apply obind_nopanic; [assumption|]. intros ? _.
+  apply obind_nopanic; [assumption|]. intros ? _.
+  apply obind_nopanic; [assumption|]. intros ? _.
+  apply obind_nopanic; [assumption|]. intros ? _.
+  apply obind_nopanic; [assumption|]. intros ? _. discriminate.
+Qed.
